@@ -294,6 +294,15 @@ fn cmd_run(args: &Args) {
             if step
                 .events
                 .iter()
+                .filter(|event| matches!(event, mrecordlog::verif::IoEvent::Unlink { .. }))
+                .count()
+                >= 2
+            {
+                output_in.add("calls_with_multi_unlink", 1);
+            }
+            if step
+                .events
+                .iter()
                 .any(|event| matches!(event, mrecordlog::verif::IoEvent::Create { .. }))
             {
                 output_in.add("calls_with_rollover", 1);
